@@ -4,3 +4,4 @@ C02 at token level (Props/C02.lean) and at text level (Props/C03Text.lean: C02_t
 import Verif.Props.C02
 import Verif.Props.C03Text
 import Verif.Props.C02Clauses
+import Verif.Props.ClauseExamples
